@@ -72,4 +72,52 @@ Section Flow.
     else if ltb o (frac o 8 10000) fl then Err ValueError
     else if ltb o spatvol (frac o 6 10) then Err ValueError
     else Ok (w, ts).
+
+  (* ------------------------------------------------------------- tria_spherical_project, before the flow:
+     from the three non-constant eigenfunctions (an oracle's output) to the spectral embedding *)
+  Definition vmean (l : V) : vec3 K := vdivs o (fold_left (vadd o) l (zero3 o)) (ofZ o (Z.of_nat (length l))).
+  Definition maxl1 (l : list K) : K := match l with [] => zero o | x :: tl => fold_left (fun m y => if ltb o m y then y else m) tl x end.
+  Definition minl1 (l : list K) : K := match l with [] => zero o | x :: tl => fold_left (fun m y => if ltb o y m then y else m) tl x end.
+  Definition half_ := frac o 1 2.
+  (* mean position of the vertices where ev > 0.5 max(ev) / ev < 0.5 min(ev) *)
+  Definition cmax_of (v : V) (ev : list K) : vec3 K :=
+    vmean (map fst (filter (fun '(_, e) => ltb o (half_ * maxl1 ev) e) (combine v ev))).
+  Definition cmin_of (v : V) (ev : list K) : vec3 K :=
+    vmean (map fst (filter (fun '(_, e) => ltb o e (half_ * minl1 ev)) (combine v ev))).
+  Definition coord (k : nat) (p : vec3 K) : K := match k with 0 => vx p | 1 => vy p | _ => vz p end.
+  Definition negl (l : list K) : list K := map (fun x => opp o (one o) * x) l.
+  (* ev[ev < 0] /= -min(ev); ev[ev > 0] /= max(ev)   (min and max taken before the division) *)
+  Definition rescale_pm1 (ev : list K) : list K :=
+    let mn := minl1 ev in let mx := maxl1 ev in
+    map (fun x => let y := if ltb o x (zero o) then x / opp o mn else x in if ltb o (zero o) y then y / mx else y) ev.
+  Definition unit3 (p : vec3 K) : vec3 K := vscale o (one o / sqrtK o (dot o p p)) p.
+
+  Record embedding := { em_vn : V; em_spatvol : K; em_l : K * K * K; em_ev : list K * list K * list K }.
+  Definition spectral_embedding (v : V) (ev1 ev2 ev3 : list K) : result embedding :=
+    let cmax1 := cmax_of v ev1 in let cmin1 := cmin_of v ev1 in
+    let cmax2 := cmax_of v ev2 in let cmin2 := cmin_of v ev2 in
+    let cmax3 := cmax_of v ev3 in let cmin3 := cmin_of v ev3 in
+    let l11 := absK o (coord 1 cmax1 - coord 1 cmin1) in
+    let l21 := absK o (coord 1 cmax2 - coord 1 cmin2) in
+    let l31 := absK o (coord 1 cmax3 - coord 1 cmin3) in
+    if ltb o l11 l21 || ltb o l11 l31 then Err ValueError
+    else
+      let w1 := vsub o cmax1 cmin1 in
+      let ev1' := if ltb o (coord 1 cmax1) (coord 1 cmin1) then negl ev1 else ev1 in
+      let l22 := absK o (coord 2 cmax2 - coord 2 cmin2) in
+      let l32 := absK o (coord 2 cmax3 - coord 2 cmin3) in
+      let sw := ltb o l22 l32 in
+      let '(e2, e3) := if sw then (ev3, ev2) else (ev2, ev3) in
+      let '(cx2, cx3) := if sw then (cmax3, cmax2) else (cmax2, cmax3) in
+      let '(cn2, cn3) := if sw then (cmin3, cmin2) else (cmin2, cmin3) in
+      let w2 := vsub o cx2 cn2 in
+      let ev2' := if ltb o (coord 2 cx2) (coord 2 cn2) then negl e2 else e2 in
+      let w3 := vsub o cx3 cn3 in
+      let ev3' := if ltb o (coord 0 cx3) (coord 0 cn3) then negl e3 else e3 in
+      let spat := absK o (dot o (unit3 w1) (cross o (unit3 w2) (unit3 w3))) in
+      let a := rescale_pm1 ev1' in let b := rescale_pm1 ev2' in let c := rescale_pm1 ev3' in
+      Ok {| em_vn := map (fun '(x, (y, z)) => (x, y, z)) (combine c (combine a b));
+            em_spatvol := spat;
+            em_l := (l11, absK o (coord 2 cx2 - coord 2 cn2), absK o (coord 0 cx3 - coord 0 cn3));
+            em_ev := (ev1', ev2', ev3') |}.
 End Flow.
